@@ -9,6 +9,8 @@
   OUT-DEF   X_mul_cof writes its result on every path to a normal return
   MAP-PURE  no map implementation can reach the pseudo-random generator (other than through representation blinding)
             nor writes a file-scope or function-static variable: the point is a function of the input bytes alone
+  MAP-DEF   (c13_def.py) no coordinate (component) of the output point is read before the map body assigned it
+  MAP-HIST  (c13_def.py) the ->X_map_* constants of the context are not accumulated across curve selections
 """
 import re
 
@@ -351,7 +353,9 @@ def rule_map_pure(ctx, prog, chk):
 
 def analyse(ctx, prog, chk):
     chk.used_program(prog)
-    return {"maps": rule_map_cof(ctx, prog, chk), "cof": rule_cof_shape(ctx, prog, chk), "pure": rule_map_pure(ctx, prog, chk)}
+    from . import c13_def
+    nd, nh = c13_def.analyse(ctx, prog, chk)
+    return {"maps": rule_map_cof(ctx, prog, chk), "cof": rule_cof_shape(ctx, prog, chk), "pure": rule_map_pure(ctx, prog, chk), "def": nd, "hist": nh}
 
 
 def selfcheck(ctx, prog, chk):
@@ -363,5 +367,7 @@ def run(ctx, chk):
     chk.floor("MAP-COF", "map implementations and wrappers", c["maps"], 12)
     chk.floor("COF-ID", "cofactor routines and their multiplications", c["cof"], 6)
     chk.floor("MAP-PURE", "map implementations and wrappers", c["pure"], 12)
+    chk.floor("MAP-DEF", "map implementations and wrappers", c["def"], 12)
+    chk.floor("MAP-HIST", "self-updates of map-related context fields", c["hist"], 2)
     for cfg in ("P255", "P381"):
         analyse(ctx, ctx.program(cfg), chk)
